@@ -42,7 +42,7 @@ def _worker_init(counter):
 
 def _one_run(pid, verif_seed, i, opts):
     eng = engine_for(pid)
-    sc = core.Scratch(_slot if _slot is not None else 900)
+    sc = core.Scratch(i, pid)
     seed = core.derive_seed(pid, verif_seed, i)
     t0 = time.monotonic()
     try:
@@ -50,6 +50,7 @@ def _one_run(pid, verif_seed, i, opts):
         case = eng.generate(seed, sc, **gopts)
         res = eng.execute(case, sc)
         res["i"] = i
+        res["slot"] = i
         res["seed"] = seed
         res["wall"] = time.monotonic() - t0
         res["fingerprint"] = core.jdigest([case["world"], case["schedule"]])
@@ -66,6 +67,8 @@ def _one_run(pid, verif_seed, i, opts):
         return {"i": i, "seed": seed, "verdict": "harness_error",
                 "detail": f"{type(e).__name__}: {e}\n{traceback.format_exc()[-1500:]}",
                 "wall": time.monotonic() - t0}
+    finally:
+        sc.cleanup()
 
 
 def _case_size(case):
@@ -82,9 +85,9 @@ def load_known():
         return json.load(f)
 
 
-def replay_case(pid, case, slot=950):
+def replay_case(pid, case, slot=999000):
     eng = engine_for(pid)
-    sc = core.Scratch(slot)
+    sc = core.Scratch(slot, pid)
     try:
         return eng.execute(case, sc)
     finally:
@@ -111,7 +114,7 @@ def check_known(pid, out):
         for rp in known_replays(k, pid):
             with open(rp) as f:
                 rec = json.load(f)
-            res = replay_case(pid, rec["case"])
+            res = replay_case(pid, rec["case"], slot=rec.get("slot", 999000))
             hit = res["verdict"] == "violation" and \
                 res["violation"]["class"] == rec["violation"]["class"]
             if hit and k["status"] != "open":
@@ -190,16 +193,17 @@ def handle_violations(pid, results, out=print, max_report=3):
         case = r["case"]
 
         def test(c, cls=cls):
-            res = replay_case(pid, c, slot=960)
+            res = replay_case(pid, c, slot=r.get("slot", 999001))
             return res["verdict"] == "violation" and res["violation"]["class"] == cls and \
                 (not hasattr(eng, "accept_shrunk") or eng.accept_shrunk(r, res))
 
         small, mstats = minimise.minimise(case, test, engine=eng)
-        final = replay_case(pid, small, slot=960)
+        final = replay_case(pid, small, slot=r.get("slot", 999001))
         if final["verdict"] != "violation" or final["violation"]["class"] != cls:
-            small, final = case, replay_case(pid, case, slot=960)
+            small, final = case, replay_case(pid, case, slot=r.get("slot", 999001))
         kid = classify_known(pid, small, final.get("violation") or r["violation"])
-        rec = {"property": pid, "seed": r["seed"], "run_index": r["i"], "case": small,
+        rec = {"property": pid, "seed": r["seed"], "run_index": r["i"], "slot": r.get("slot", 999001),
+               "case": small,
                "violation": final.get("violation") or r["violation"], "minimise": mstats,
                "original_size": r.get("size"), "minimised_size": _case_size(small),
                "repo_head": repo_head()}
